@@ -5,7 +5,7 @@
 EXTENDS JetProg
 CONSTANTS Depth
 
-Classes == {"identifier", "field", "unexported", "method", "nilderef", "nilderef-embedded", "mapfield-ok", "index-range", "index-len", "index-empty", "index-neg", "index-str", "index-strlen", "index-kind", "index-nil",
+Classes == {"identifier", "field", "unexported", "method", "nilderef", "nilderef-embedded", "mapfield-ok", "mapchain-missing", "index-range", "index-len", "index-empty", "index-neg", "index-str", "index-strlen", "index-kind", "index-nil",
             "slice-bound", "slice-kind", "operand-mul", "operand-add", "operand-neg", "operand-cmp", "calltarget", "calltarget-nil", "calltarget-nil-noargs", "range-invalid", "range-nilliteral",
             "argcount", "argcount-jetfunc", "argtype", "arg-invalid", "underscore", "underscore-jetfunc", "underscore-variadic", "argcount-variadic", "func",
             "len-kind", "ints-range", "pipe-nonfunc", "argcount-piped-jetfunc", "argcount-piped"}
